@@ -460,7 +460,7 @@ func runC15(c *Ctx) {
 	for _, f := range compilerFns {
 		for _, rl := range mapRangesIn(f) {
 			n++
-			base := core.FuncName(f) + "/range " + shortExpr(rl.rng.X)
+			base := core.FuncName(f) + "/range " + rangeName(p, rl)
 			perKey[base]++
 			construct := base
 			if perKey[base] > 1 {
@@ -470,24 +470,15 @@ func runC15(c *Ctx) {
 			if !rl.rng.Pos().IsValid() {
 				pos = p.FuncPos(f)
 			}
-			var real []string
-			for _, rs := range orderSensitive(p, rl) {
-				if strings.HasPrefix(rs, "append:") {
-					if appendIsSortedLater(rl, rs, p) {
-						continue
-					}
-					real = append(real, "appends to a slice that is not sorted afterwards ("+strings.TrimPrefix(rs, "append:")+")")
-					continue
-				}
-				real = append(real, rs)
-			}
+			real := classifyMapRange(p, rl)
 			if why := firstMatchFromMap(p, rl); why != "" {
 				real = append(real, why)
 			}
 			if len(real) == 0 {
 				r.Hold("C15.4", construct, pos, "order-insensitive loop body")
 			} else {
-				r.Violate("C15.4", construct, pos, "map iteration order can reach the compiled chain: "+strings.Join(real, "; "))
+				r.Add(core.Obligation{Rule: "C15.4", Construct: construct, Pos: pos, Decision: core.Violated, Sig: effectSig(real),
+					Reason: "map iteration order can reach the compiled chain: " + strings.Join(real, "; ")})
 			}
 		}
 	}
